@@ -13,10 +13,13 @@
     the step, which answers only for exactly the text it recorded ([XBad] otherwise).  A case id is
     reported when the model's prediction (exception class, result, last result) differs from the
     observation at any call. *)
-From Coq Require Import List ZArith Bool.
+From Coq Require Import List ZArith Bool String Ascii.
 From VibeSQL Require Import Lex.F64Display Lex.Placeholder Lex.PlaceholderFixed Store.Cursor.
 Import ListNotations.
 Open Scope Z_scope.
+
+(** printable-ASCII texts are written as string literals in the shards (long list literals are slow to parse) *)
+Definition T (s : string) : text := map (fun a => Z.of_N (N_of_ascii a)) (list_ascii_of_string s).
 
 (** values as Python shows them *)
 Inductive xres : Type :=
